@@ -330,11 +330,22 @@ impl<'de, R: Reader<'de>> Deserializer<R> {
         }
     }
 
+    // The skipping parser does not validate UTF-8: `from_slice` reports the deferred error at
+    // the end, but `Deserializer::deserialize` and streams do not, and the raw text of a lazy
+    // value is handed out as `&str`.
+    fn check_skipped_utf8(&self) -> Result<()> {
+        if self.parser.read.next_invalid_utf8() < self.parser.read.index() {
+            return self.parser.read.check_utf8_final();
+        }
+        Ok(())
+    }
+
     fn deserialize_lazyvalue<V>(&mut self, visitor: V) -> Result<V::Value>
     where
         V: de::Visitor<'de>,
     {
         let (raw, status) = self.parser.skip_one()?;
+        tri!(self.check_skipped_utf8());
         if status == ParseStatus::HasEscaped {
             visitor.visit_str(as_str(raw))
         } else {
@@ -346,7 +357,9 @@ impl<'de, R: Reader<'de>> Deserializer<R> {
     where
         V: de::Visitor<'de>,
     {
-        let val = ManuallyDrop::new(self.parser.get_owned_lazyvalue(true)?);
+        let val = self.parser.get_owned_lazyvalue(true)?;
+        tri!(self.check_skipped_utf8());
+        let val = ManuallyDrop::new(val);
         // #Safety
         // the json is validate before parsing json, and we pass the document using visit_bytes
         // here.
